@@ -123,3 +123,34 @@ def parallel_tlc(chk, jobs):
     with ThreadPoolExecutor(max_workers=max(1, len(jobs))) as ex:
         futs = [ex.submit(one, j) for j in jobs]
         return [f.result() for f in futs]
+
+
+def validate_parallel(chk, module, cfg, recs, label, nchunks=4):
+    """Trace-validate `recs` with `nchunks` TLC processes in parallel.
+
+    Returns [(index into recs, verdict string)] for every record TLC printed as BAD.
+    Each chunk must be accepted (completed, postcondition = all records walked)."""
+    import json
+
+    from harness.core import tla_json
+
+    n = len(recs)
+    if n == 0:
+        return []
+    nchunks = max(1, min(nchunks, n))
+    # round-robin so that expensive record kinds spread over the chunks
+    chunks = [list(range(k, n, nchunks)) for k in range(nchunks)]
+    jobs = []
+    for k, idxs in enumerate(chunks):
+        tf = chk.scratch / f"ptrace-{len(chk.cov['tlc_runs'])}-{k}.json"
+        tf.write_text(json.dumps(tla_json([recs[i] for i in idxs])))
+        jobs.append({"module": module, "cfg": cfg, "workers": 1, "label": f"{label} [{k + 1}/{nchunks}]", "env": {"TRACE_FILE": str(tf)}})
+    results = parallel_tlc(chk, jobs)
+    bad = []
+    for idxs, r in zip(chunks, results):
+        if r.violated or not r.completed:
+            raise MachineryError(f"{module} did not accept the trace: {r.out[-1500:]}")
+        for t in r.printed("BAD"):
+            bad.append((idxs[t[1] - 1], t[2]))
+    chk.cov["traces_validated_against_impl"] += n
+    return sorted(bad)
